@@ -366,6 +366,7 @@ class Gen:
             alias = rng.choice(pool[:2]) if fault != "two-scopes-alias-field" else "xa"
             if fault == "dup-import" and used:
                 alias = used[0]
+                self.fault_applied = True
             used.append(alias)
             self.main.imports.append((alias, m, 0))
         self.build_module(self.main, n_types=rng.randint(2, 5 if big else 4), depth=3 if big else 2)
@@ -564,11 +565,13 @@ class Gen:
                         continue
                 ps.append((n, "UInt:8", self.new_ref("type", ["UInt"], t)))
             t.params = ps
-            for fd in t.fields:
+            for fd in list(t.fields):
                 self.field_refs(t, fd)
                 if fd.kind == "anon":
                     for sub in fd.typ.fields:
                         self.field_refs(fd.typ, sub)
+            if not t.anon and r.random() < 0.3:
+                self.add_alias_chain(t)
         self.apply_reference_faults()
 
     def field_refs(self, t, fd):
@@ -618,6 +621,24 @@ class Gen:
                 else:
                     fd.kind = "vconst"
 
+    def add_alias_chain(self, t):
+        """let va = f.g ; let vb = va.h  -- members looked up through a virtual field that aliases a dotted path"""
+        r, O = self.r, self.oracle
+        c = []
+        for f in t.fields:
+            if f.kind in ("typed", "inline") and f.typ is not None and f.typ.kind != "enum":
+                for g in O.fields_of(f.typ):
+                    g0 = g.alias_target if g.hoisted_alias else g
+                    if g.kind != "anon" and g0.kind in ("typed", "inline") and g0.typ is not None and g0.typ.kind != "enum":
+                        hs = [h for h in O.fields_of(g0.typ) if h.kind != "anon"]
+                        if hs:
+                            c.append((f, g, hs))
+        if not c:
+            return
+        f, g, hs = r.choice(c)
+        fd, _ = self.add_virtual(t, "field", [f.name, g.name])
+        self.add_virtual(t, "field", [fd.name, r.choice(hs).name])
+
     def random_field_path(self, t, before=None, maxlen=3):
         """a (usually valid) path of field names starting in t"""
         r = self.r
@@ -636,7 +657,19 @@ class Gen:
         path = [n]
         while f is not None and len(path) < maxlen and r.random() < 0.6:
             f0 = f.alias_target if f.hoisted_alias else f
-            if f0.kind in ("typed", "inline") and f0.typ.kind != "enum":
+            hops = 0
+            while f0 is not None and f0.kind == "valias" and f0.alias_of is not None and hops < 6:
+                res = O.resolve_field_path(f0.alias_of)          # members through a virtual alias
+                hops += 1
+                if res[0] != "ok" or res[3].kind != "field":
+                    f0 = None
+                    break
+                f0 = res[3].obj
+                if f0.hoisted_alias:
+                    f0 = f0.alias_target
+            if f0 is None:
+                break
+            if f0.kind in ("typed", "inline") and f0.typ is not None and f0.typ.kind != "enum":
                 sub = [g for g in O.fields_of(f0.typ) if g.kind != "anon"]
                 if not sub:
                     break
